@@ -90,6 +90,17 @@ def run(ctx):
     ctx.budget = ctx.budget or (200 if ctx.quick else 3000)
     sc = scenarios(ctx.quick)
     tot = explore_conc.run_scenarios(ctx, 'C07', sc)
+    if not ctx.quick and not ctx.new_violations():
+        # the same pairs with the server-side retry budget at its minimum: one conflict exhausts
+        # it, so the fall-through paths behind the retry loop are reached by a single racing write
+        sc1 = [dict(s, name='retry_count=1: ' + s['name']) for s in scenarios(True)]
+        tot1 = explore_conc.run_scenarios(
+            ctx, 'C07', sc1, conf={('placement', 'allocation_conflict_retry_count'): 1})
+        for k in ('scenarios', 'executions', 'states', 'transitions', 'leaves'):
+            tot[k] += tot1[k]
+        tot['capped'] += tot1['capped']
+        tot['samples'] = (tot['samples'] or [])[:3] + (tot1['samples'] or [])[:3]
+        sc = sc + sc1
     fill(ctx, tot, len(sc), '%d start states (capacity 2 unused / capacity 3 partly used%s) x '
          'pairs (%s) of: allocation writes for different and the same consumers whose joint demand '
          'exceeds / equals / is below the free capacity, a multi-provider write, a POST /allocations '
@@ -98,7 +109,8 @@ def run(ctx):
          'granularity%s' % (
              len(states(ctx.quick)), '' if ctx.quick else ' / full / nested with unit constraints '
              'and fractional ratio / a database without project, user and type rows (2 pairs)', '%d selected' % len(QUICK) if ctx.quick else 'all',
-             '' if ctx.quick else '; plus 16 triples with preemption bound 2'))
+             '' if ctx.quick else '; plus 16 triples with preemption bound 2; plus the quick pairs once '
+             'more under [placement]allocation_conflict_retry_count=1'))
     ctx.coverage['retry_path_note'] = (
         'scenarios_exercising_independent_reread counts scenarios in which replace_all() entered '
         'its server-side retry and re-read the provider in an independent transaction')
